@@ -154,6 +154,24 @@ claim("C11",
       "assigned to the upstream direction without a probe is injective under ASCII case folding.",
       "Not decided: 'probe passed => data works on that path', 8-bit mangling, size limits, lost replies to a commit.")
 
+claim("C09",
+      "wire-layout extraction over SSA paths (item widths, carried fields, tag constants folded into the decoder's branch conditions), sibling constant agreement for headers, constant limits, table distinctness",
+      "Decides the agreement structure of request encoding: for every request type each successful encoder path's item sequence (byte tags with constants, "
+      "fixed-width fields, blobs) is matched by a successful decoder path reading the same widths into the same fields under tag conditions that hold "
+      "for the constants written; both sides use the same codec object, matching header helpers and one byte order; the 1+3(+2) header is emitted and "
+      "stripped with equal constants under the same flag, user ids are base-36, 2 characters, modulo 36^2; dot insertion <= 63, dotting threshold <= 63, "
+      "names bounded from 253 and every question name comes from PrepareHostname under err==nil; command codes are distinct under case folding and the "
+      "cache-busting alphabet is lower-case letters and digits.",
+      "Not decided: size budget (float/codec ratio) vs. name limit for every payload, miekg escaping of 8-bit output, value equality for all field values.")
+
+claim("C10",
+      "wire-layout extraction as C09 for responses; type-switch case-set equality; per-record constant agreement (tag width, chunk size); sibling rule for name-carrying records; registered-vs-emitted constant equality",
+      "Decides the agreement structure of response carriage: response Encode/Decode layouts agree (widths, fields, tag constants, codec object, byte order); "
+      "the record types constructed by the Wrap* functions equal the case sets of the reassembly and ordering type switches and the dispatcher covers every "
+      "selectable query type; per record type the order-tag bytes prepended equal the prefix stripped; tag + chunk fills A (4) and AAAA (16) exactly; CNAME, MX "
+      "and SRV targets are built by PrepareHostname; the private RR type registered with miekg equals the type emitted and queried.",
+      "Not decided: miekg Pack/Unpack (escaping, TXT limits), capacity for all payload lengths, tag arithmetic beyond 512 records.")
+
 for pid in ["C01","C02","C03","C04","C05","C06","C07","C08","C09","C10","C11","C12","C13","C14","C15","C16","C17","C18"]:
     if pid not in P:
         na(pid, PENDING)
